@@ -135,6 +135,7 @@ def e1(name, what, bounds, functions, tiers=Q, timeout=1500, mem_gb=8, cost=2, *
 
 E1 = dict(
     pos2=e1("h_input::pos_after_law_2", "line/column law of position_after and span_from (tiny bound, robust canary)", "valid UTF-8 <= 2 bytes, any position", F_POS),
+    pos3=e1("h_input::pos_after_law_3", "line/column law of position_after and span_from (tiny bound: a newline followed by a 2-byte char fits)", "valid UTF-8 <= 3 bytes, any position", F_POS, mem_gb=16),
     abs3=e1("h_input::pos_absolute_3", "absolute line/column law (tiny bound, robust canary)", "valid UTF-8 <= 3 bytes, any cut", F_POS),
     ws3=e1("h_lexer::ws_skip_3", "whitespace skipping (tiny bound, robust canary)", "valid UTF-8 <= 3 bytes, any char-boundary start", F_SKIP + F_POS),
     pos4=e1("h_input::pos_after_law_4", "line/column law of position_after and span_from", "valid UTF-8 <= 4 bytes, any position", F_POS),
@@ -337,7 +338,7 @@ PROPS["C12"] = dict(
     ),
     residual="GLR error position (make_error picks the first head of the last frontier); the non-empty expected list text; grammars outside the corpus",
     assumptions=["see C01 for the corpus/automaton assumptions", "stub: fmt::format (message text is not a subject)"],
-    harnesses=[E1[k] for k in ("err1", "err2", "ws3", "ws4", "ws6", "pos2", "pos4", "pos6", "abs3", "abs4", "lextwin")] + [STEP[1], STEP[5], STEP[6]]
+    harnesses=[E1[k] for k in ("err1", "err2", "ws3", "ws4", "ws6", "pos2", "pos3", "pos4", "pos6", "abs3", "abs4", "lextwin")] + [STEP[1], STEP[5], STEP[6]]
     + [E4Q[n] for n in sorted(E4Q) if n.endswith("_q")][:8] + [E4Q[n] for n in sorted(E4Q) if n.endswith("_t")][:8],
 )
 
@@ -355,7 +356,7 @@ PROPS["C13"] = dict(
     ),
     residual="GLR span threading through the reducer; ordering/non-overlap of all leaves of a whole tree as a global statement (follows from the step facts by induction, not decided as a whole)",
     assumptions=["recognizer model: arbitrary prefix matcher", "step harness stand-ins as in C02"],
-    harnesses=[E1[k] for k in ("pos2", "pos4", "pos6", "pos8", "abs3", "abs4", "abs6", "bytes", "tok4", "tok6", "lextwin")] + STEP[:4] + [STEP[5]],
+    harnesses=[E1[k] for k in ("pos2", "pos3", "pos4", "pos6", "pos8", "abs3", "abs4", "abs6", "bytes", "tok4", "tok6", "lextwin")] + STEP[:4] + [STEP[5]],
 )
 
 PROPS["C14"] = dict(
@@ -500,3 +501,14 @@ GLRSPAN = [gsh("glr_span_0", "GLR empty reduction span"), gsh("glr_span_1", "GLR
 PROPS["C13"]["harnesses"] += GLRSPAN
 PROPS["C13"]["explanation"] += " (4) GLR: the span given to a new solution in the reducer (sliced) runs from the first child's start to the last child's end; an empty solution gets the zero-width span at the end of the root head's span."
 PROPS["C13"]["residual"] = "the rest of GLR span threading (token spans created by the shifter, spans of heads created for lexical ambiguity); ordering/non-overlap of all leaves of a whole tree as a global statement (follows from the step facts by induction, not decided as a whole)"
+
+
+F_GROUP = ["rustemo-compiler/src/table/mod.rs: LRState::group_per_next_symbol (whole function, sliced verbatim)"]
+GROUP = [
+    h("e2", "groupsym::proofs::group_3_items", "max_prior_for_term = max priority of the productions shifting the terminal in the state; items grouped by the symbol after the dot",
+      "3 items over 3 productions of length 2 with symbolic symbols (3 terminals, 2 non-terminals), priorities 0..=99, any dot positions; unwind 6", F_GROUP, timeout=900, mem_gb=10, cost=2, extra=NOMEM),
+    h("e2", "groupsym::proofs::group_twin_must_fail", "vacuity twin (must FAIL)", "-", F_GROUP, timeout=900, mem_gb=8, cost=1, extra=NOMEM, expect_fail=True),
+]
+PROPS["C05"]["harnesses"] += GROUP
+PROPS["C05"]["explanation"] += " The shift priority itself (LRState::group_per_next_symbol, sliced) is decided to be the maximum priority of the productions in which the terminal follows the dot in the state."
+PROPS["C04"]["harnesses"] += [GROUP[0]]
